@@ -65,6 +65,10 @@ CLAIMED = {
             'complete for the current tree: every ctypes.Structure field (order, offset, width, kind, pointer depth, pointee) and every lsci.<f>.argtypes/restype (arity, register class, width, pointer depth, return kind) is compared with the C side; a z3 query per field/scalar parameter asks for an image/value read differently by the two sides',
             'LP64 SysV x86-64; ctypes natural alignment; field names are not compared (free in ctypes); trusted: clang layouts, python ast, z3',
             'DESIGN.md 5/C20'),
+    'C17': ('CBMC bit-precise bounded model checking (SAT) of the real MDC and MaxDis_Fast selection logic with the distance kernels havoced; CBMC->real-arithmetic VC->z3 for one k-means step',
+            'bounded, solver-complete inside the bound: for 3..4 objects, every selection size, every distance table (arbitrary non-negative): requested count, distinct, in range; MaxDis_Fast: every further element maximises the minimum tabled distance; k-means step: labels in range and nearest, centroids = member means for every label vector',
+            'distances are an over-approximation (havoc), so metric-specific float behaviour and "first = farthest from centroid" are outside; MaxDis, k-means++ and convergence not decided (measured out of reach or limit statements)',
+            'DESIGN.md 5/C17'),
 }
 NA = {
     'C16': 'behaviour lives inside SQLite and libc decimal formatting (FFI + file I/O); nothing of it is source in /repo that could be executed symbolically - an encoding would verify a hand-written SQL fake, not the code',
